@@ -394,6 +394,9 @@ func hostileStreamN(ch *Choices) ([]byte, string, int) {
 			if ch.Intn(3, "longlist.anytype") == 1 {
 				// any name the type map knows: a class, a named map type, a named slice type, a list of structs
 				keys := sortedTypeKeys()
+				if ch.Intn(3, "longlist.nested") == 1 {
+					keys = c14ExtraNames() // container-of-container types registered by hand
+				}
 				tname = keys[ch.Intn(len(keys), "longlist.type")]
 				if ch.Intn(3, "longlist.few") != 0 {
 					n = ch.Range(0, 3, "longlist.fewn") // the declared length is all there is
